@@ -99,6 +99,12 @@ CHECKS = {
         'trunc/keep: >> is floor(code/2^n) in the unchanged format and stays in range (C14_rshift_keep), << is exact when representable and clamped otherwise (C14_lshift_keep). The float log2 bit-length is a modelled primitive (|code| < 2^47). '
         'Tie: all codes of small words, boundary/random codes to 32 bits, all counts 0..n_word+3, three modes, scalars and arrays; exact-rational relations on the implementation output and the model.',
    design='7/C14', technique='Coq proof (loop invariant, exactness) + differential correspondence'),
+
+ 'C18': dict(
+   text='Proof: on the object path (n_word >= 64) the model of set_val is plain integer arithmetic: for EVERY n_word >= 64 and every Python integer given as a code (raw=True) or as an integer value (n_frac >= 0) the stored code is OVERFLOW(c) with exact overflow/underflow flags '
+        '(C18_store_python_int, C18_in_range_is_exact); binary / hex strings in raw mode restore the code and the bitwise operators are exact at every width (C18_bin_roundtrip, C18_hex_roundtrip, C18_bitwise, instances of the all-width C11/C13 theorems); the indicator equals (64 <=? n_word). '
+        'Tie: the listed word and fraction lengths, codes at/beyond both bounds, multiples of the modulus, random codes up to 4x the width, int / value / bin / hex inputs by three routes, val, flags, bin(), hex(), ~ & | ^, and the indicator through explicit sizes, dtype=, like=, best-size, resize, reset and bitwise routes.',
+   design='7/C18', technique='Coq proof (object path = integer arithmetic, all widths) + differential correspondence'),
 }
 NA_REASON = 'check not built yet (work in progress; see DESIGN.md section 10 order of work)'
 def main():
